@@ -6,6 +6,7 @@ package main
 
 import (
 	"context"
+	"encoding/json"
 	"fmt"
 	"strings"
 
@@ -170,6 +171,23 @@ func runC01(c *ctx) error {
 			add("plugin config changed", false, func(m *c01Mutation) {
 				m.step.Plugins[0].Config = map[string]any{"injected": true}
 			})
+			// a config need not be a mapping: every falsy scalar is a config of its own, different from null / {} / []
+			// and from each other
+			curJSON, _ := json.Marshal(st.Plugins[0].Config)
+			if m, ok := st.Plugins[0].Config.(map[string]any); ok && len(m) == 0 {
+				curJSON = []byte("null")
+			}
+			if l, ok := st.Plugins[0].Config.([]any); ok && len(l) == 0 {
+				curJSON = []byte("null")
+			}
+			for _, cand := range []any{false, 0, "", nil} {
+				cand := cand
+				cj, _ := json.Marshal(cand)
+				if string(cj) == string(curJSON) {
+					continue
+				}
+				add(fmt.Sprintf("plugin config replaced by %s", cj), false, func(m *c01Mutation) { m.step.Plugins[0].Config = cand })
+			}
 			add("plugin source spelled canonically", true, func(m *c01Mutation) { m.step.Plugins[0].Source = m.step.Plugins[0].FullSource() })
 		}
 		if len(st.Plugins) >= 2 {
